@@ -1827,7 +1827,8 @@ class ListBox(Widget, WidgetContainerMixin):
             return None
 
         # no choices available, just shift current one
-        self.shift_focus((maxcol, maxrow), max(1 - focus_rows, row_offset))
+        # (a zero-height focus widget at the bottom can not be shifted below the last row)
+        self.shift_focus((maxcol, maxrow), min(max(1 - focus_rows, row_offset), maxrow - 1))
 
         # final check for pathological case where we may fall short
         middle, _top, bottom = self.calculate_visible((maxcol, maxrow), True)
